@@ -213,12 +213,16 @@ static var File_Open(var self, var filename, var access) {
 static void File_Close(var self) {
   struct File* f = self;
   
+  if (f->file is NULL) {
+    throw(IOError, "Cannot close file - no file open.");
+  }
+  
   int err = fclose(f->file);
+  f->file = NULL;
+  
   if (err != 0) {
     throw(IOError, "Failed to close file: %i", $I(err));
   }
-  
-  f->file = NULL;
 }
 
 static void File_Seek(var self, int64_t pos, int origin) {
